@@ -397,6 +397,11 @@ def gen_recoverable(x, k):
             x.case("ecdsa_recover", [rs[:64] + bytes([rid]), msg], note="other recid")
             x.case("ecdsa_recover", [le(r) + le(N - s) + bytes([rs[64]]), msg], note="high S")
             x.case("ecdsa_recover", [rs, be(x.scalar())], note="other message")
+            # a genuine r (a valid abscissa for this recovery id) with boundary values of s, and the reverse
+            for sb in (0, 1, N - 1, N, (N - 1) // 2, (N + 1) // 2):
+                x.case("ecdsa_recover", [le(r) + le(sb % 2**256) + bytes([rs[64]]), msg], note="boundary s")
+            for rb_ in (0, N, P - N, 1):
+                x.case("ecdsa_recover", [le(rb_) + le(s) + bytes([rs[64]]), msg], note="boundary r")
         r, s = x.scalar(), x.scalar()
         rid = x.rng.choice([-1, 0, 1, 2, 3, 4, 5, 255, 256])
         x.case("ecdsa_recoverable_signature_parse_compact", [be(r) + be(s), rid])
@@ -409,6 +414,7 @@ def gen_recoverable(x, k):
     for r in (4, P - N - 1, P - N, 1, 2):
         for rid in range(4):
             x.case("ecdsa_recover", [le(r) + le(4) + bytes([rid]), be(x.rng.randrange(2**256))], note="small r")
+            x.case("ecdsa_recover", [le(r) + le(0) + bytes([rid]), be(x.rng.randrange(2**256))], note="small r, s = 0")
     for fn in ("ecdsa_recoverable_signature_serialize_compact", "ecdsa_recoverable_signature_convert"):
         x.case(fn, [bytes(64)], note="length")
         x.case(fn, [bytes(66)], note="length")
